@@ -307,6 +307,33 @@ pub fn run(args: &[String]) {
         };
         emit(&mut w, &text);
     }
+    // (g) a valid statement with exactly one unknown character spliced in at a token boundary
+    //     (the only error of the input: an ERROR node must still come with a diagnostic, C12)
+    let nun = arg_u64(args, "--unknown", 0);
+    if nun > 0 {
+        let ts = crate::fam_accept::templates();
+        for _ in 0..nun {
+            let t = &ts[rng.below(ts.len() as u64) as usize].1;
+            let lexed = oq3_parser::LexedStr::new(t);
+            let n = lexed.len();
+            if n == 0 {
+                continue;
+            }
+            let at = rng.below(n as u64 + 1) as usize;
+            let ch = ["§", "`", "\\", "№", "?", "¤", "\u{7f}", "€"][rng.below(8) as usize];
+            let mut s2 = String::new();
+            for i in 0..n {
+                if i == at {
+                    s2.push_str(ch);
+                }
+                s2.push_str(lexed.text(i));
+            }
+            if at == n {
+                s2.push_str(ch);
+            }
+            emit(&mut w, &s2);
+        }
+    }
     // (d) fragment soups as in the lex family
     for _ in 0..arg_u64(args, "--random", 0) {
         let frags: &[&str] = &["x", " ", "\n", "1", "1.", ".5", "e", "ns", "im", "(", ")", "[", "]", "{", "}", ";", ",", "=", "+", "-", "*", "/", "<", ">", "!", "&", "|", "^", "%", "~", ":", "@", "$1", "\"01\"", "'ab'", "int", "float", "qubit", "gate", "def", "if", "else", "for", "in", "while", "return", "measure", "reset", "let", "const", "delay", "box", "array", "complex", "bit", "ctrl", "inv", "pow", "negctrl", "gphase", "switch", "case", "default", "include", "extern", "input", "output", "barrier", "break", "end", "creg", "qreg", "OPENQASM 3;", "pragma x\n", "// c\n", "/* c */", "->", "é", "😀", "#"];
